@@ -1,4 +1,5 @@
 import Driver.Fam.Numb
+import CifModel.Model.NumbLimbs
 /- family `todig` (C10): `todig <dbl> <scale>` ↦ `tg <hex digit string> rnd=0` — the file-static to_digits() -/
 namespace Driver.Fam.Todig
 open Driver CifModel CifModel.Model.Numb
@@ -10,7 +11,12 @@ def handle : Handler
       let v ← Driver.Fam.Numb.parseBin d
       let scale ← sc.toInt?
       if -scale < LEAST_DBL_10_DIGIT ∨ -scale > DBL_MAX_10_EXP then none
-      else pure s!"tg {Driver.Fam.Numb.hexDigits (toDigitsBig v.m v.e scale)} rnd=0"
+      else
+        let big := toDigitsBig v.m v.e scale
+        match CifModel.Model.NumbLimbs.toDigitsLimbs v.m v.e scale with
+        | some l => if l = big then pure s!"tg {Driver.Fam.Numb.hexDigits big} rnd=0"
+                    else pure s!"tg LIMB-LEVEL {Driver.Fam.Numb.hexDigits l} BIG-LEVEL {Driver.Fam.Numb.hexDigits big}"
+        | none => pure s!"tg LIMB-LEVEL array-overrun BIG-LEVEL {Driver.Fam.Numb.hexDigits big}"
   | _ => none
 
 end Driver.Fam.Todig
